@@ -19,7 +19,7 @@ ASSUMPTIONS = []
 PROBES = ['overlapping_registrations']
 PLAN = {
   'quick': {'strata': {'threads': 6000, 'sequential': 1000}, 'wall_s': 300, 'chunk': 100, 'min_conclusive': 1000},
-  'thorough': {'strata': {'threads': 150000, 'sequential': 20000}, 'wall_s': 900, 'chunk': 250, 'min_conclusive': 10000},
+  'thorough': {'strata': {'threads': 150000, 'sequential': 20000}, 'wall_s': 900, 'chunk': 250, 'min_conclusive': 1000},
 }
 INNER = ['ENTRY_SIGNAL', 'EXIT_SIGNAL', 'INIT_SIGNAL', 'REFLECTION_SIGNAL', 'EMPTY_SIGNAL', 'SEARCH_FOR_SUPER_SIGNAL',
          'STOP_FABRIC_SIGNAL', 'STOP_ACTIVE_OBJECT_SIGNAL', 'SUBSCRIBE_META_SIGNAL', 'PUBLISH_META_SIGNAL']
@@ -28,8 +28,9 @@ KINDS = ['append', 'attr', 'event_name', 'event_num', 'name_for', 'is_inner']
 
 def generate(seed, stratum, tier):
   rng = random.Random(seed)
-  nthreads = 1 if stratum == 'sequential' else rng.randrange(2, 6)
-  pool = ['N%d' % i for i in range(rng.randrange(2, 7))]
+  big = common.deep(rng)
+  nthreads = 1 if stratum == 'sequential' else common.span(rng, 2, 6, big)
+  pool = ['N%d' % i for i in range(common.span(rng, 2, 7, big, 3))]
   scripts = []
   for t in range(nthreads):
     n = rng.randrange(1, 5) if stratum != 'sequential' else rng.randrange(3, 20)
